@@ -1242,13 +1242,22 @@ def check_c12(tier, seed, replay):
         with open(gen, 'w') as f:
             f.write(stable)
     del text
+    # 4b. the lexical lock coverage of the current source (tools/lockscope.py -> Gen/LockScopes.lean; theorems lexical_lock_coverage,
+    #     lock_takers, run_actions_called_under_lock, critical_steps_locked of Props/C12.lean)
+    import lockscope
+    scopes = lockscope.generate(vlib.REPO, os.path.join(lean_dir, 'TrompModel', 'Gen', 'LockScopes.lean'))
+    unguarded = ['%s (%s): %s' % (k, site, t) for k, site, sts in scopes for t, g in sts if not g]
     built = True
     try:
         vlib.build_lean(prop, lean_dir)
     except vlib.BuildError as e:
         built = False
         if not violations:
-            path = vlib.write_replay(prop, tier, seed, 'lean-build', ['verdict tie-broken', 'broken lake build TrompModel.Props.C12 over the regenerated lock table'],
+            path = vlib.write_replay(prop, tier, seed, 'lean-build',
+                                     ['verdict tie-broken', 'broken lake build TrompModel.Props.C12 over the regenerated lock table / lexical lock scopes '
+                                      '(theorems observed_accesses_all_held, lexical_lock_coverage, lock_takers, critical_steps_locked)',
+                                      'functions taking the lock now: ' + ', '.join(k for k, _, _ in scopes),
+                                      'statements outside every lock scope now:'] + ['  ' + u for u in unguarded],
                                      str(e).split('\n')[-40:])
             violations.append((path, True))
     audit = vlib.lean_audit(prop, lean_dir) if built else dict(obligations=0, discharged=0, theorems=[], problems=[])
@@ -1268,6 +1277,7 @@ def check_c12(tier, seed, replay):
              'instrumented lock; thread counts %s, %d seeds, %d iterations per thread' % (nthreads, len(seeds), iters),
         samples=['h_conc_tsan s2 %d 4 %d' % (seeds[0], iters), 'h_conc_hook l1 %d 8 60' % seeds[0]], exhaustive=False,
         lock_table={k: dict(held=table[k], unheld=unheld[k]) for k in sorted(table)},
+        lexical_lock_scopes=dict(functions=[k + ' @' + site for k, site, _ in scopes], statements=sum(len(sts) for _, _, sts in scopes), outside_any_lock_scope=unguarded),
         linearization_operations_replayed=nops, notes=notes)
     vlib.write_evidence(prop, tier, seed, 'proof', cov,
                         ['the caller keeps the documented obligations (no object destroyed while another thread uses it; reporters/tracers not '
